@@ -21,17 +21,26 @@ type params struct {
 	state  string // running | kill-now | kill-poison | killing-slow | fail-stop | fail-gstop | fail-restart | fail-grestart | fail-resume | killed | reused | never | zombie | sys-stopped | stash
 	prov   string // actorof-warm | actorof-cold | clone | parse | find
 	sender string // outside | sibling
+	fine   bool   // lock / atomic operations of packages actor and mailbox are switch points too (preemption inside handlers and sends)
 }
 
 func (p params) name() string {
-	return fmt.Sprintf("state=%s/ref=%s/sender=%s", p.state, p.prov, p.sender)
+	n := fmt.Sprintf("state=%s/ref=%s/sender=%s", p.state, p.prov, p.sender)
+	if p.fine {
+		n += "/fine"
+	}
+	return n
 }
 
 func scenario(p params, bounds []int) *vexp.Scenario {
+	cfg := vsys.CoarseSends(150000)
+	if p.fine {
+		cfg.FinePkgs = []string{"vivid/internal/actor.", "vivid/internal/mailbox."}
+	}
 	return &vexp.Scenario{
 		Name:   p.name(),
 		Family: "state=" + p.state,
-		Cfg:    vsys.CoarseSends(150000),
+		Cfg:    cfg,
 		Bounds: bounds,
 		Setup:  func(x *vexp.X) { vsys.CoarseSetupSends() },
 		Body: func(x *vexp.X) {
@@ -269,6 +278,7 @@ func scenario(p params, bounds []int) *vexp.Scenario {
 			}
 			x.Outcome(strings.Join(outcome, " "))
 			x.Logf("outcome %v", outcome)
+			vrt.Freeze()
 			w.Sys.Stop()
 			vrt.QuiesceNoTimers()
 		},
@@ -293,6 +303,15 @@ func build(tier string) []*vexp.Scenario {
 	for _, sd := range []string{"outside", "sibling"} {
 		out = append(out, scenario(params{state: "never", prov: "parse", sender: sd}, bounds))
 		out = append(out, scenario(params{state: "pre-spawn-use", prov: "parse", sender: sd}, bounds))
+	}
+	// preemption inside handlers and sends: the sends race the target's state change at lock / atomic granularity
+	for _, st := range states {
+		for _, pv := range []string{"actorof-cold", "parse"} {
+			st, pv := st, pv
+			out = append(out, vexp.Split(2, func() *vexp.Scenario {
+				return scenario(params{state: st, prov: pv, sender: "outside", fine: true}, bounds)
+			})...)
+		}
 	}
 	return out
 }
